@@ -896,6 +896,12 @@ func ConcatAll[T any]() func(Observable[Observable[T]]) Observable[T] {
 					subscriberCtx,
 					NewObserverWithContext(
 						func(ctx context.Context, source Observable[T]) {
+							// A synchronous `sources` keeps emitting after an inner source failed or the
+							// downstream unsubscribed: do not subscribe to the next source in that case.
+							if subscriptions.IsClosed() {
+								return
+							}
+
 							sub := source.SubscribeWithContext(
 								ctx,
 								NewObserverWithContext(
